@@ -158,6 +158,12 @@ def named_cases():
                 for source in ("relative", "absolute"):
                     for arcname in (None, "given/arc"):
                         out.append({"named": entries, "arcname": arcname, "dereference": False, "flavour": "copy", "entry": "writeall", "source": source})
+        # the current directory is a node of the tree itself (the top, or a directory inside it): every entry must still be archived
+        entries = [(d, "dir", None) for d in dirs] + [(f, "file", None) for f in files]
+        for cwd in [""] + dirs:
+            for arcname in (None, "given/arc"):
+                out.append({"named": entries, "arcname": arcname, "dereference": False, "flavour": "copy", "entry": "writeall", "source": "absolute", "cwd": cwd})
+        out.append({"named": entries, "arcname": "given/arc", "dereference": False, "flavour": "copy", "entry": "writeall", "source": "dot", "cwd": ""})
     return out
 
 
@@ -224,12 +230,15 @@ def run_case(case, wd):
     apath = os.path.join(base, "t.7z")
     dest = os.path.join(base, "dest")
     os.makedirs(dest)
+    # the top directory is a member too: give it metadata of its own
+    os.chmod(top, 0o750)
+    os.utime(top, ns=(1_400_000_000_250_000_000, 1_400_000_000_250_000_000))
     old = os.getcwd()
-    os.chdir(os.path.dirname(top))
+    os.chdir(os.path.dirname(top) if case.get("cwd") is None else os.path.join(top, case["cwd"]))
     out = []
     try:
         pw = PW if case["flavour"] == "password" else None
-        src = "src" if case["source"] == "relative" else top
+        src = {"relative": "src", "absolute": top, "dot": "."}[case["source"]]
         try:
             if case["entry"] == "shutil":
                 made = py7zr.pack_7zarchive(os.path.join(base, "t"), src)
@@ -259,11 +268,18 @@ def run_case(case, wd):
         rootrel = case["arcname"]
     elif case["source"] == "relative":
         rootrel = "src"
+    elif case["source"] == "dot":
+        rootrel = "."
     else:
         rootrel = top.lstrip("/")
     got = snapshot(os.path.join(dest, rootrel)) if os.path.isdir(os.path.join(dest, rootrel)) else None
     if got is None:
         return [("root-missing", f"extraction did not produce {rootrel!r}; dest holds {sorted(os.listdir(dest))[:4]}")]
+    rst, tst = os.lstat(os.path.join(dest, rootrel)), os.lstat(top)
+    if stat.S_IMODE(rst.st_mode) != stat.S_IMODE(tst.st_mode):
+        out.append(("mode", f"the archived top directory itself: mode {oct(stat.S_IMODE(rst.st_mode))}, source {oct(stat.S_IMODE(tst.st_mode))}"))
+    if abs(rst.st_mtime - tst.st_mtime) > 5e-6:
+        out.append(("mtime", f"the archived top directory itself: mtime {rst.st_mtime!r}, source {tst.st_mtime!r}"))
     if set(got) != set(exp):
         miss, extra = sorted(set(exp) - set(got)), sorted(set(got) - set(exp))
         out.append(("path-set", f"missing {miss[:3]} unexpected {extra[:3]}"))
@@ -423,7 +439,7 @@ def main(tier="quick", seed=0, only=None):
             "filter; for 6 richer trees every combination of <= "
             f"{bound} deviations over per-node mode (files 0400..0777, dirs 0500..0777), per-node mtime (1 s, 1e9+.123456, 2^31+.5, 2100-eps), per-node "
             "name class (leading dot, spaces, control chars, BMP, astral, 'c:' prefix), arcname given, dereference, default filters, "
-            "password, pack_7zarchive/unpack_7zarchive, absolute source; trees whose names collide with the archived top directory's own name (every parent-closed directory set out of {b, src, src/b} under a top called 'src', a file in each, one link anywhere pointing at any file; relative and absolute source, arcname given or not); and a sweep of a file+directory pair over "
+            "password, pack_7zarchive/unpack_7zarchive, absolute source; trees whose names collide with the archived top directory's own name (every parent-closed directory set out of {b, src, src/b} under a top called 'src', a file in each, one link anywhere pointing at any file; relative and absolute source, arcname given or not; the same trees archived while the current directory is the top or a directory inside the tree); the top directory's own mode and mtime are compared as well; and a sweep of a file+directory pair over "
             f"{len(mtime_values())} modification times (k*10^j, +-1 us, 2^k+-1 us) in 1970..2100. Oracle: lstat/readlink/bytes of the extracted tree "
             "vs the source: same path set incl. empty directories, kinds, bytes, link text, permission bits of files and directories, "
             "|delta mtime| <= 5 us; with dereference links are replaced by what they point to."
